@@ -41,6 +41,11 @@ CLAIMS["C08"] = dict(
   text="(a) no clock, environment, file system, thread, randomness or hash-iteration call is reachable from the loader roots and the loader's types contain no hash containers, so loading is a function of the text; (b) dependencies are emitted first (post-order, ordered work list, registry writes after the sort) and every evaluation error reaches the error list, Context::load returns Err iff the list is non-empty; (c) over definitions.units, currency.units and the currency snapshot: names unique per namespace, all 3700+ identifier references resolve exact->prefix->plural, 753 alias chains end at real definitions, quantities map injectively to dimensionalities over declared base units, categories are declared, hard-wired decomposition units exist. Not claimed: stored value == value of its definition text for each of the ~2900 entries (needs evaluation).",
   note="Trusted: driver, the data-file reader/folder in /verif/unitsfile, the list of non-deterministic std/extern APIs in rules/loader_rules.py.",
   design_ref="DESIGN.md section 4, C08")
+CLAIMS["C02"] = dict(
+  technique="gate (cut-set) analysis on MIR CFG with operand def-use, NonZero abstract classification of exponent writers, HIR arm-table check of btree_merge, callee/shape facts of the exponent algebra",
+  text="Decides the structural clauses of dimensional soundness on /repo's current tree: every operation that requires equal or empty dimensionality (Add/Sub/rem, hypot, atan2, sin/cos/tan, asin/acos/atan, log base, the temperature suffix, pow/shl/shr exponent, and/or/xor, unit-list members and value) becomes unreachable in the CFG once the accepting edges of the dimensionality tests on exactly the operands it combines are removed; the exponent algebra has the documented shape (merge adds and drops zero, Div = Mul o recip, powi multiplies, root divides behind the divisibility gate, inverse trig returns radian); every value stored into a Dimensionality map is NonZero by induction over all writers; btree_merge's arms insert what they advance. This covers all inputs for these clauses; that each database unit has the right dimensionality is data and is not claimed.",
+  note="Trusted: driver and callee resolution; the two justified sites in rules/c02.py JUSTIFIED (each backed by a machine-checked clause). A helper-function refactor of a gate is reported as an unrecognised gate.",
+  design_ref="DESIGN.md section 4, C02")
 NA = {
  "C05": "digit strings, recurring-block offsets and the 1-ulp truncation bound are number-theoretic facts about runtime values of p/q and the base; no structural clause is a genuine necessary condition (DESIGN.md section 4, C05)",
 }
